@@ -53,6 +53,10 @@ type C18Input struct {
 	Steps   []C18Step  `json:"steps,omitempty"`
 	Sync    bool       `json:"sync,omitempty"`
 	AnyOps  []C18AnyOp `json:"any_ops,omitempty"`
+	// Split (variant many): the states are piped by TWO BindMany calls of the
+	// same size (the helper derives the binding id from the size and the
+	// target only): same expected behaviour as one call over all states
+	Split bool `json:"split,omitempty"`
 }
 
 type C18Obs struct {
@@ -308,7 +312,15 @@ func c18Exec(in *C18Input) *C18Obs {
 			_, err = pipes.Bind(source, api, snames[i], tnames[i], "")
 		}
 	case "many":
-		_, err = pipes.BindMany(source, api, snames, tnames)
+		if in.Split && n >= 2 {
+			h2 := n / 2
+			_, err = pipes.BindMany(source, api, snames[:h2], tnames[:h2])
+			if err == nil {
+				_, err = pipes.BindMany(source, api, snames[h2:n], tnames[h2:n])
+			}
+		} else {
+			_, err = pipes.BindMany(source, api, snames, tnames)
+		}
 	case "ready":
 		_, err = pipes.BindReady(source, api, tnames[0], "")
 	case "conn":
@@ -714,6 +726,10 @@ func c18GenPipe(r *Rng, variant string, mode int) *C18Input {
 	default:
 		in.N = r.Range(1, 3)
 	}
+	if variant == "many" && r.Chance(40) {
+		in.Split = true
+		in.N = []int{2, 2, 4}[r.Intn(3)]
+	}
 	for i := 0; i < in.N; i++ {
 		ms, mt := false, false
 		if variant != "err" {
@@ -850,6 +866,7 @@ func runC18(c *Ctx) error {
 	emit := func(kind string, in *C18Input) {
 		obs := c18Exec(in)
 		out.Count("variant", in.Variant)
+		out.Count("split_bindmany", fmt.Sprint(in.Split))
 		if in.Variant == "any" {
 			out.Count("any_ops", fmt.Sprint(len(in.AnyOps)))
 			same := fmt.Sprint(obs.AnySrc) == fmt.Sprint(obs.AnyTgt)
